@@ -75,10 +75,14 @@ func (r *Reader) Header() *Header {
 func (r *Reader) Read() (*Record, error) {
 	b, err := r.r.ReadBytes('\n')
 	if err != nil {
-		return nil, err
+		// A final line without a newline is returned with io.EOF.
+		if err != io.EOF || len(b) == 0 {
+			return nil, err
+		}
+	} else {
+		b = b[:len(b)-1]
 	}
-	b = b[:len(b)-1]
-	if b[len(b)-1] == '\r' {
+	if len(b) != 0 && b[len(b)-1] == '\r' {
 		b = b[:len(b)-1]
 	}
 	var rec Record
